@@ -100,6 +100,9 @@ func (c CounterStyle) RenderValueStyle(counterValue int, counterStyle pr.Counter
 	return c.renderValue(counterValue, c.resolveCounterStyle(counterStyle, nil), nil)
 }
 
+// maximum number of pad symbols added to a counter representation
+const maxPadLength = 1000
+
 func (c CounterStyle) renderValue(counterValue int, counter *CounterStyleDescriptors, previousTypes utils.Set) string {
 	if counter == nil {
 		if _, has := c["decimal"]; has {
@@ -229,6 +232,10 @@ func (c CounterStyle) renderValue(counterValue int, counter *CounterStyleDescrip
 	padDifference := pad.Int - len(initial)
 	if isNegative && useNegative {
 		padDifference -= len(negativePrefix) + len(negativeSuffix)
+	}
+	if padDifference > maxPadLength {
+		// Counter Styles 3 allows limiting the pad length to a reasonable maximum
+		padDifference = maxPadLength
 	}
 	if padDifference > 0 {
 		initial = strings.Repeat(symbol(pad.NamedString), padDifference) + initial
